@@ -1,15 +1,21 @@
 /-
 Model of `scenario.Runner` (internal/pkg/scenario/Runner.go): the runs of a scenario as N workers
-executing under the bounded-concurrency bookkeeping of `runScenario`.  Core Lean only.
+executing under the bounded-concurrency bookkeeping of `runScenario`, ALL ACTING ON ONE HEAP.
+Core Lean only.
 
 ```go
 func (runner *Runner) runScenario() error {
     var runWaitGroup sync.WaitGroup
-    concurrentRunGuard := make(chan struct{}, runner.maxConcurrentRuns)
+    var runErrorsGuard sync.Mutex
+    runErrors := compositeErrors.New(…)
+    concurrentRunGuard := make(chan struct{}, min(runner.maxConcurrentRuns, runner.runNumber))
     doRun := func(runNumber uint64) {
-        runner.run(runNumber)          // DeepClone the configured annealer, set ids, Anneal()
-        <-concurrentRunGuard
-        runWaitGroup.Done()
+        defer runWaitGroup.Done()
+        defer func() { <-concurrentRunGuard }()
+        defer func() {                                  // since the D26 repair
+            if recovered := recover(); recovered != nil { … runErrors.Add(runError) … }
+        }()
+        runner.run(runNumber)          // DeepClone the configured annealer, set ids, wire, Anneal()
     }
     runWaitGroup.Add(int(runner.runNumber))
     for runNumber := uint64(1); runNumber <= runner.runNumber; runNumber++ {
@@ -17,34 +23,47 @@ func (runner *Runner) runScenario() error {
         go doRun(runNumber)
     }
     runWaitGroup.Wait()
+    if runErrors.Size() > 0 { return runErrors }
     return nil
 }
 ```
 
-State space.  `shared` (data set tables, parameter maps, observers, … : everything a run only
-reads) is a constant of the configuration: no event changes it.  Worker `i` owns a private part
-`priv i : P` (the struct copies DeepClone makes: iteration counter, archive, models, ids) and
-uses ONE heap cell `cells (addr i) : C` for the mutable object its clone reaches through a
-pointer (the multi-objective explorer's coolant).  The configured annealer (the template every
-run clones) reaches the cell at address `tmpl`.  Cloning copies the template's cell into the
-clone's: with `addr i = tmpl` that is the pointer copy of a shallow `DeepClone` (nothing is
-written, the clone keeps using the template's cell), with a fresh `addr i` it is a deep copy.
-`ClonePrivate` says that no two clones, and no clone and the template, use the same cell; under it
-the state is the product `shared × (i → local i)` with `local i = (priv i, cells (addr i))`, and a
-step of worker `i` reads `shared` and reads/writes `local i` only.
+State space.  There is ONE heap `heap : Nat → V` of aliasable cells.  Everything a run touches
+lives there: the configured annealer (the template every run clones: its coolant, iteration counter,
+archive storage, model), the input data, the state of the observers on the shared notifier, the
+saver's decompression model, and the cells of every clone.  What run `i` does is a `Prog`: ARBITRARY
+heap transformers `clone` (DeepClone + ids + wiring + `Explorer.Initialise()` incl. loading the
+data + the StartedAnnealing event), `step` (one iteration), `finish` (the FinishedAnnealing
+observers: the saver) and the predicates `done`, `cloneFails`, `fails`, `finishFails` (a panic at
+that site).  Nothing in the semantics stops the transformer of one run from reading or writing the
+cells of another: which cells a run reaches is decided by the (aliasing) layout of the heap.
+
+Footprints.  `Footprint` DECLARES for every run a read set `R i` and a write set `W i` (lists of
+addresses) and a set `locked` of cells that are only ever accessed inside a lock-guarded section.
+`Respects` is the semantic meaning of the declaration (a transformer changes only cells of `W`, and
+what it writes — and what the predicates answer — depends only on the cells of `R`); `ClonePrivate`
+is the hypothesis of the independence theorems: every program respects its declaration,
+`W i ∩ (R j ∪ W j) ⊆ locked` for `i ≠ j`, and no run reads a locked cell.
+
+Locks.  A section between `Lock()` and `Unlock()` of one mutex is ONE atomic event (here: the
+saver's `deriveSolution…` inside `finish`).  A locked cell may be written by every run; it must not
+be in any read set: the section writes it before it reads it, so that what the section computes does
+not depend on the value another run left there.  The same section executed WITHOUT the lock is two
+events (see `unlocked_saver_mixes_results` in Properties/C08.lean).
 
 Scheduling.  An event is one atomic action of the main goroutine (`spawn`: channel send + `go`;
-`ret`: `Wait()` returns) or of run goroutine `i` (`clone`, `step`, `release` = `<-guard`,
+`ret`: `Wait()` returns) or of run goroutine `i` (`clone`, `step`, `finish`, `release` = `<-guard`,
 `wgDone`).  A schedule is any list of events each of which is enabled when its turn comes: every
 interleaving the buffered channel and the WaitGroup admit.  The channel and the WaitGroup are
 counters.
 
-Faults.  `fails sh l` says that the next step of a run in local state `l` panics.
-`isolate = false` is the behaviour of a bare goroutine: the panic is not recovered, the process
-terminates (`crashed`), nothing is enabled any more, runs in flight never deliver a result.
-`isolate = true` is the behaviour the property demands (and what a `recover` in the run
-goroutine gives): the failing run is marked `err`, releases its slot and its WaitGroup count like
-any other, and `Run()` returns.
+Faults.  A run can panic while it is cloned / initialised (`cloneFails`: e.g. the data cannot be
+loaded), in an iteration (`fails`) and in a FinishedAnnealing observer (`finishFails`: e.g. the
+saver cannot create its output directory).  `isolate = true` is the behaviour of the code since
+the D26 repair (`recover` in `doRun`): the failing run is marked `err`, releases its slot and its
+WaitGroup count like any other, and `Run()` returns.  `isolate = false` is the bare goroutine the
+code used before: the panic is not recovered, the process terminates (`crashed`), nothing is enabled
+any more, runs in flight never deliver a result.
 
 The atomic-step interleaving semantics used here is sequentially consistent; it is NOT the Go
 memory model.  Data-race freedom of the real code is not a theorem of this model.
@@ -59,36 +78,57 @@ def iter {α : Type} (f : α → α) : Nat → α → α
   | 0, a => a
   | n + 1, a => iter f n (f a)
 
-/-- what one run does, as a step function over its local state `P × C` reading `Sh` -/
-structure Worker (Sh P C : Type) where
-  step : Sh → P × C → P × C
-  done : Sh → P × C → Bool
-  fails : Sh → P × C → Bool
+/-- the heap: every aliasable cell, of every run, of the template and of the shared objects.
+    (A structure with a second, contentless field around the function: a transformer
+    `Heap V → Heap V` must be evaluated by the compiled oracle when it is applied to a heap, not
+    again on every later read of a cell — which is what happens when a heap IS a function, or a
+    one-field structure the compiler represents by its field.) -/
+structure Heap (V : Type) where
+  cell : Nat → V
+  boxed : Unit := ()
 
-structure Config (Sh P C : Type) extends Worker Sh P C where
+instance {V : Type} : CoeFun (Heap V) (fun _ => Nat → V) := ⟨Heap.cell⟩
+
+/-- write one cell -/
+def Heap.set {V : Type} (h : Heap V) (i : Nat) (v : V) : Heap V := { cell := upd h.cell i v }
+
+/-- what one run does, as transformers of THE heap -/
+structure Prog (V : Type) where
+  /-- `DeepClone()`, `assignNewRunId`, `wireObservers`, `Explorer.Initialise()` (loads the data),
+      StartedAnnealing -/
+  clone : Heap V → Heap V
+  /-- a panic in that phase -/
+  cloneFails : Heap V → Bool
+  /-- one iteration: StartedIteration, `TryRandomChange`, `CoolDown`, FinishedIteration -/
+  step : Heap V → Heap V
+  done : Heap V → Bool
+  /-- the next iteration panics -/
+  fails : Heap V → Bool
+  /-- the FinishedAnnealing observers (the saver writes the run's result) -/
+  finish : Heap V → Heap V
+  /-- a panic in a FinishedAnnealing observer -/
+  finishFails : Heap V → Bool
+
+structure Config (V : Type) where
   /-- `runNumber` -/
   runs : Nat
-  /-- `maxConcurrentRuns` = capacity of the buffered channel -/
+  /-- capacity of the buffered channel -/
   bound : Nat
   /-- a panic of one run is confined to that run -/
   isolate : Bool
-  shared : Sh
-  /-- private state of the `i`-th clone after `DeepClone`, `assignNewRunId` and `Initialise()` -/
-  initP : Nat → P
-  /-- address of the cell the configured annealer (the template) reaches -/
-  tmpl : Nat
-  /-- address of the cell the `i`-th clone reaches -/
-  addr : Nat → Nat
+  /-- the program of the `i`-th run -/
+  prog : Nat → Prog V
 
 inductive Phase
   | idle      -- `go doRun(i)` not reached yet
   | spawned   -- goroutine started, annealer not cloned yet
   | running   -- cloned and annealing (or stopped with `err`)
+  | saved     -- FinishedAnnealing observers done
   | released  -- `<-concurrentRunGuard` done, `runWaitGroup.Done()` pending
   | finished
   deriving DecidableEq, Repr
 
-structure State (P C : Type) where
+structure State (V : Type) where
   /-- runs started so far (the loop variable of `runScenario`, minus one) -/
   next : Nat
   /-- tokens in the buffered channel -/
@@ -96,14 +136,13 @@ structure State (P C : Type) where
   /-- the WaitGroup counter -/
   wg : Nat
   phase : Nat → Phase
-  priv : Nat → P
-  cells : Nat → C
+  heap : Heap V
   /-- run `i` panicked (and was recovered) -/
   err : Nat → Bool
-  /-- ghost: steps run `i` has taken -/
+  /-- ghost: iterations run `i` has completed -/
   steps : Nat → Nat
-  /-- ghost: the local state run `i` had when it started annealing (what StartedAnnealing reports) -/
-  obs : Nat → Option (P × C)
+  /-- ghost: the heap as it was when run `i` reported StartedAnnealing -/
+  obs : Nat → Option (Heap V)
   /-- `Run()` has returned -/
   returned : Bool
   /-- the process was terminated by an unrecovered panic -/
@@ -113,46 +152,51 @@ inductive Ev
   | spawn
   | clone (i : Nat)
   | step (i : Nat)
+  | finish (i : Nat)
   | release (i : Nat)
   | wgDone (i : Nat)
   | ret
   deriving DecidableEq, Repr
 
-variable {Sh P C : Type}
-
-/-- the local state of worker `i` -/
-def loc (cfg : Config Sh P C) (s : State P C) (i : Nat) : P × C := (s.priv i, s.cells (cfg.addr i))
+variable {V : Type}
 
 /-- `Run()` has just been entered: `runWaitGroup.Add(runs)` done, nothing started -/
-def init (cfg : Config Sh P C) (cells₀ : Nat → C) : State P C :=
-  { next := 0, chan := 0, wg := cfg.runs, phase := fun _ => .idle, priv := cfg.initP, cells := cells₀,
+def init (cfg : Config V) (h₀ : Heap V) : State V :=
+  { next := 0, chan := 0, wg := cfg.runs, phase := fun _ => .idle, heap := h₀,
     err := fun _ => false, steps := fun _ => 0, obs := fun _ => none, returned := false, crashed := false }
 
+/-- what a panic of run `i` does to the state -/
+def panicked (cfg : Config V) (s : State V) (i : Nat) : State V :=
+  if cfg.isolate then { s with err := upd s.err i true } else { s with crashed := true }
+
 /-- one event; `none` = not enabled in `s` -/
-def exec (cfg : Config Sh P C) (s : State P C) : Ev → Option (State P C)
+def exec (cfg : Config V) (s : State V) : Ev → Option (State V)
   | .spawn =>
     if s.crashed = false ∧ s.returned = false ∧ s.next < cfg.runs ∧ s.chan < cfg.bound then
       some { s with next := s.next + 1, chan := s.chan + 1, phase := upd s.phase s.next .spawned }
     else none
   | .clone i =>
     if s.crashed = false ∧ s.phase i = .spawned then
-      some { s with phase := upd s.phase i .running,
-                    priv := upd s.priv i (cfg.initP i),
-                    cells := upd s.cells (cfg.addr i) (s.cells cfg.tmpl),
-                    obs := upd s.obs i (some (cfg.initP i, s.cells cfg.tmpl)) }
-    else none
-  | .step i =>
-    if s.crashed = false ∧ s.phase i = .running ∧ s.err i = false ∧ cfg.done cfg.shared (loc cfg s i) = false then
-      if cfg.fails cfg.shared (loc cfg s i) then
-        if cfg.isolate then some { s with err := upd s.err i true }
+      if (cfg.prog i).cloneFails s.heap then
+        -- recovered: the run has stopped with `err` before it ever started annealing
+        if cfg.isolate then some { s with phase := upd s.phase i .running, err := upd s.err i true }
         else some { s with crashed := true }
       else
-        let l := cfg.step cfg.shared (loc cfg s i)
-        some { s with priv := upd s.priv i l.1, cells := upd s.cells (cfg.addr i) l.2,
-                      steps := upd s.steps i (s.steps i + 1) }
+        let h := (cfg.prog i).clone s.heap
+        some { s with phase := upd s.phase i .running, heap := h, obs := upd s.obs i (some h) }
+    else none
+  | .step i =>
+    if s.crashed = false ∧ s.phase i = .running ∧ s.err i = false ∧ (cfg.prog i).done s.heap = false then
+      if (cfg.prog i).fails s.heap then some (panicked cfg s i)
+      else some { s with heap := (cfg.prog i).step s.heap, steps := upd s.steps i (s.steps i + 1) }
+    else none
+  | .finish i =>
+    if s.crashed = false ∧ s.phase i = .running ∧ s.err i = false ∧ (cfg.prog i).done s.heap = true then
+      if (cfg.prog i).finishFails s.heap then some (panicked cfg s i)
+      else some { s with heap := (cfg.prog i).finish s.heap, phase := upd s.phase i .saved }
     else none
   | .release i =>
-    if s.crashed = false ∧ s.phase i = .running ∧ (s.err i = true ∨ cfg.done cfg.shared (loc cfg s i) = true) then
+    if s.crashed = false ∧ ((s.phase i = .running ∧ s.err i = true) ∨ s.phase i = .saved) then
       some { s with phase := upd s.phase i .released, chan := s.chan - 1 }
     else none
   | .wgDone i =>
@@ -165,7 +209,7 @@ def exec (cfg : Config Sh P C) (s : State P C) : Ev → Option (State P C)
     else none
 
 /-- a schedule: every event must be enabled when its turn comes -/
-def run (cfg : Config Sh P C) : State P C → List Ev → Option (State P C)
+def run (cfg : Config V) : State V → List Ev → Option (State V)
   | s, [] => some s
   | s, e :: es =>
     match exec cfg s e with
@@ -179,27 +223,96 @@ inductive Outcome (L : Type)
   | outOfFuel (l : L)
   deriving Repr, DecidableEq
 
-/-- the run alone: no scheduler, no other worker -/
-def solo (w : Worker Sh P C) (sh : Sh) : Nat → P × C → Outcome (P × C)
-  | 0, l => if w.done sh l then .finished l else if w.fails sh l then .failed l else .outOfFuel l
-  | fuel + 1, l =>
-    if w.done sh l then .finished l else if w.fails sh l then .failed l else solo w sh fuel (w.step sh l)
+/-- the iterations and the finish of a run alone -/
+def soloFrom (p : Prog V) : Nat → Heap V → Outcome (Heap V)
+  | 0, h =>
+    if p.done h then (if p.finishFails h then .failed h else .finished (p.finish h))
+    else if p.fails h then .failed h else .outOfFuel h
+  | fuel + 1, h =>
+    if p.done h then (if p.finishFails h then .failed h else .finished (p.finish h))
+    else if p.fails h then .failed h else soloFrom p fuel (p.step h)
 
-/-- the hypothesis established on the real objects by the clone walk: no two clones, and no clone
-    and the template, reach the same mutable cell -/
-def ClonePrivate (cfg : Config Sh P C) : Prop :=
-  (∀ i, i < cfg.runs → cfg.addr i ≠ cfg.tmpl) ∧
-  (∀ i, i < cfg.runs → ∀ j, j < cfg.runs → cfg.addr i = cfg.addr j → i = j)
+/-- the run alone on the heap `h`: no scheduler, no other worker -/
+def solo (p : Prog V) (fuel : Nat) (h : Heap V) : Outcome (Heap V) :=
+  if p.cloneFails h then .failed h else soloFrom p fuel (p.clone h)
 
-instance (cfg : Config Sh P C) : Decidable (ClonePrivate cfg) := by
-  unfold ClonePrivate; exact inferInstance
+/-! ### footprints -/
+
+/-- declared read and write sets of every run, and the lock-guarded cells -/
+structure Footprint where
+  R : Nat → List Nat
+  W : Nat → List Nat
+  locked : List Nat
+
+/-- two heaps agree on the cells of `A` -/
+def AgreeOn (A : Nat → Prop) (h h' : Heap V) : Prop := ∀ a, A a → h a = h' a
+
+/-- a transformer changes only cells of `W`; whether it writes a cell, and what it writes there,
+    depends only on the cells of `R` (on two heaps that agree on `R`, a cell of `W` either receives
+    the same value or is left alone in both) -/
+structure TRespects (f : Heap V → Heap V) (R W : List Nat) : Prop where
+  frame : ∀ h a, a ∉ W → f h a = h a
+  loc : ∀ h h', AgreeOn (· ∈ R) h h' → ∀ a, a ∈ W → f h a = f h' a ∨ (f h a = h a ∧ f h' a = h' a)
+
+/-- a predicate depends only on the cells of `R` -/
+def PRespects (p : Heap V → Bool) (R : List Nat) : Prop :=
+  ∀ h h', AgreeOn (· ∈ R) h h' → p h = p h'
+
+/-- the program reads only `R` and writes only `W` -/
+structure Respects (p : Prog V) (R W : List Nat) : Prop where
+  clone : TRespects p.clone R W
+  step : TRespects p.step R W
+  finish : TRespects p.finish R W
+  cloneFails : PRespects p.cloneFails R
+  done : PRespects p.done R
+  fails : PRespects p.fails R
+  finishFails : PRespects p.finishFails R
+
+/-- no cell run `i` writes is read or written by run `j`, lock-guarded cells excepted -/
+def PairOK (ft : Footprint) (i j : Nat) : Prop :=
+  ∀ a, a ∈ ft.W i → (a ∈ ft.R j ∨ a ∈ ft.W j) → a ∈ ft.locked
+
+instance (ft : Footprint) (i j : Nat) : Decidable (PairOK ft i j) := by
+  unfold PairOK; exact inferInstance
+
+/-- no run reads a lock-guarded cell (outside the section that wrote it) -/
+def LockedUnread (ft : Footprint) (i : Nat) : Prop := ∀ a, a ∈ ft.locked → a ∉ ft.R i
+
+instance (ft : Footprint) (i : Nat) : Decidable (LockedUnread ft i) := by
+  unfold LockedUnread; exact inferInstance
+
+/-- the part of the declaration that is a finite check on addresses:
+    `W i ∩ (R j ∪ W j) ⊆ locked` for `i ≠ j`, and `locked ∩ R i = ∅` -/
+def Disjoint (runs : Nat) (ft : Footprint) : Prop :=
+  (∀ i, i < runs → ∀ j, j < runs → i ≠ j → PairOK ft i j) ∧ (∀ i, i < runs → LockedUnread ft i)
+
+instance (runs : Nat) (ft : Footprint) : Decidable (Disjoint runs ft) := by
+  unfold Disjoint; exact inferInstance
+
+/-- THE hypothesis of the independence theorems, established on the real objects by the clone walk
+    and the before/after hash of everything the runs share: every run reads and writes what its
+    footprint declares, no run writes a cell another run reads or writes (lock-guarded cells
+    excepted), no run reads a lock-guarded cell outside the section that wrote it -/
+structure ClonePrivate (cfg : Config V) (ft : Footprint) : Prop where
+  respects : ∀ i, i < cfg.runs → Respects (cfg.prog i) (ft.R i) (ft.W i)
+  disjoint : Disjoint cfg.runs ft
+
+/-- the cells that are run `i`'s own business: what it reads or writes, minus the lock-guarded ones -/
+def Own (ft : Footprint) (i : Nat) (a : Nat) : Prop := (a ∈ ft.R i ∨ a ∈ ft.W i) ∧ a ∉ ft.locked
+
+/-- two outcomes are of the same kind and their heaps agree on `A` -/
+def Outcome.SameOn (A : Nat → Prop) : Outcome (Heap V) → Outcome (Heap V) → Prop
+  | .finished h, .finished h' => AgreeOn A h h'
+  | .failed h, .failed h' => AgreeOn A h h'
+  | .outOfFuel h, .outOfFuel h' => AgreeOn A h h'
+  | _, _ => False
 
 /-- run `i` has completed and delivered its result -/
-def result (cfg : Config Sh P C) (s : State P C) (i : Nat) : Option (P × C) :=
-  if (s.phase i = .released ∨ s.phase i = .finished) ∧ s.err i = false then some (loc cfg s i) else none
+def result (s : State V) (i : Nat) : Option (Heap V) :=
+  if (s.phase i = .released ∨ s.phase i = .finished) ∧ s.err i = false then some s.heap else none
 
 /-- the runs `Run()` reports as failed -/
-def failedRuns (cfg : Config Sh P C) (s : State P C) : List Nat :=
+def failedRuns (cfg : Config V) (s : State V) : List Nat :=
   (List.range cfg.runs).filter (fun i => s.err i)
 
 /-! ### counting workers in a phase class -/
@@ -215,66 +328,123 @@ def sumN (f : Nat → Nat) : Nat → Nat
 def inflight : Phase → Bool
   | .spawned => true
   | .running => true
+  | .saved => true
   | _ => false
 
 def isFinished : Phase → Bool
   | .finished => true
   | _ => false
 
-/-! ### the concrete instance: an annealing run -/
+/-! ### the concrete instance: an annealing run on a heap of numbers
 
-/-- what the property talks about: iteration counter, solution set, data, identity -/
-structure RunPriv where
-  runId : Nat
-  iteration : Nat
-  archive : Nat
-  dataLoaded : Bool
+The addresses of the template's cells and of the shared cells are numerals (written as notations so
+that `omega` and `simp` see them). -/
+
+/-- the template's coolant: number of coolings applied (temperature = T₀ · factor ^ coolings) -/
+notation "tmplCool" => (0 : Nat)
+/-- the template annealer's `currentIteration` -/
+notation "tmplIter" => (1 : Nat)
+/-- the storage of the template explorer's archive -/
+notation "tmplArch" => (2 : Nat)
+/-- the template's model -/
+notation "tmplModel" => (3 : Nat)
+/-- the input data every run loads (the file named by DataSourcePath); 0 = cannot be loaded -/
+notation "sharedData" => (4 : Nat)
+/-- `Saver.decompressionModel`: written by every run, inside `decompressionMutex` only -/
+notation "saverScratch" => (5 : Nat)
+/-- state of an observer on the shared notifier (`AnnealingInvariantObserver.previousObjectiveValue`) -/
+notation "obsState" => (6 : Nat)
+
+/-- where the cells of the clones are: the aliasing structure `DeepClone` + `Initialise` produce -/
+structure Layout where
+  cool : Nat → Nat
+  iter : Nat → Nat
+  arch : Nat → Nat
+  model : Nat → Nat
+  data : Nat → Nat
+  out : Nat → Nat
+
+/-- every clone owns six cells of its own -/
+def privLayout : Layout :=
+  { cool := fun i => 8 + 6 * i, iter := fun i => 9 + 6 * i, arch := fun i => 10 + 6 * i,
+    model := fun i => 11 + 6 * i, data := fun i => 12 + 6 * i, out := fun i => 13 + 6 * i }
+
+inductive Site
+  | clone | step | finish
   deriving DecidableEq, Repr
 
-/-- the coolant: temperature = T₀ · factor ^ coolings -/
-structure Coolant where
-  coolings : Nat
-  deriving DecidableEq, Repr
-
-/-- read-only inputs of a run -/
+/-- by-value inputs of a run (copied, not aliasable) -/
 structure Inputs where
   /-- `MaximumIterations` -/
   budget : Nat
-  /-- archive size after an iteration (a function of the data and the draws; read-only here) -/
-  archiveAfter : Nat → Nat → Nat
-  /-- fault injection: run `failRun` panics in `TryRandomChange` of iteration `failAt` -/
+  /-- archive after an iteration: run, iteration number, archive before, model state -/
+  archiveAfter : Nat → Nat → Nat → Nat → Nat
+  /-- `Initialise(Random)` + `Randomize()` with the run's own generator: run, cloned state, data -/
+  modelInit : Nat → Nat → Nat → Nat
+  /-- model state after an iteration: run, iteration number, state before, data -/
+  modelAfter : Nat → Nat → Nat → Nat → Nat
+  /-- what the saver writes: run, decompressed model, archive, data -/
+  encode : Nat → Nat → Nat → Nat → Nat
+  /-- fault injection: run `failRun` panics at `failSite` (for `step`: in iteration `failAt`) -/
   failRun : Option Nat
+  failSite : Site
   failAt : Nat
+  /-- `CheckingLoopInvariant`: an `AnnealingInvariantObserver` sits on the shared notifier -/
+  invObserver : Bool
 
-/-- `SimpleAnnealer.Anneal()` as a worker: one step = one iteration (TryRandomChange + CoolDown) -/
-def annealWorker : Worker Inputs RunPriv Coolant where
-  step := fun sh l =>
-    ({ l.1 with iteration := l.1.iteration + 1, archive := sh.archiveAfter l.1.runId l.1.iteration },
-     { coolings := l.2.coolings + 1 })
-  done := fun sh l => decide (l.1.iteration > sh.budget)
-  fails := fun sh l => sh.failRun == some l.1.runId && l.1.iteration == sh.failAt
+/-- `Runner.run` + `SimpleAnnealer.Anneal()` of run `i` over the layout `lay` -/
+def annealProg (lay : Layout) (inp : Inputs) (i : Nat) : Prog Nat where
+  -- DeepClone: the clone's cells receive the template's values (a pointer copy where the layout
+  -- gives the clone the template's cell: then nothing changes); Initialise: the archive the clone
+  -- reaches is emptied, the data is loaded, the model is randomised with the run's own generator;
+  -- StartedAnnealing: the invariant observer (if configured) notes the objective value
+  clone := fun h =>
+    let h := h.set (lay.cool i) (h tmplCool)
+    let h := h.set (lay.iter i) (h tmplIter)
+    let h := h.set (lay.model i) (h tmplModel)
+    let h := h.set (lay.arch i) 0
+    let h := h.set (lay.data i) (h sharedData)
+    let h := h.set (lay.model i) (inp.modelInit i (h (lay.model i)) (h (lay.data i)))
+    if inp.invObserver then h.set obsState (h (lay.model i)) else h
+  cloneFails := fun h => h sharedData == 0 || (inp.failRun == some i && inp.failSite == .clone)
+  -- iterationStarted: currentIteration++ ; TryRandomChange (model, then archive) ; CoolDown
+  step := fun h =>
+    let h := h.set (lay.iter i) (h (lay.iter i) + 1)
+    let h := h.set (lay.model i) (inp.modelAfter i (h (lay.iter i)) (h (lay.model i)) (h (lay.data i)))
+    let h := h.set (lay.arch i) (inp.archiveAfter i (h (lay.iter i)) (h (lay.arch i)) (h (lay.model i)))
+    h.set (lay.cool i) (h (lay.cool i) + 1)
+  -- initialDoneValue / checkIfDone: currentIteration >= MaximumIterations
+  done := fun h => decide (inp.budget ≤ h (lay.iter i))
+  fails := fun h => inp.failRun == some i && inp.failSite == .step && h (lay.iter i) + 1 == inp.failAt
+  -- the saver, inside decompressionMutex: decompress the run's result into the shared model, build
+  -- the solution from it, encode
+  finish := fun h =>
+    let h := h.set saverScratch (h (lay.model i))
+    h.set (lay.out i) (inp.encode i (h saverScratch) (h (lay.arch i)) (h (lay.data i)))
+  finishFails := fun _ => inp.failRun == some i && inp.failSite == .finish
 
-/-- the state every run must start from: iteration 1, empty solution set, data loaded -/
-def freshPriv (i : Nat) : RunPriv := { runId := i, iteration := 1, archive := 0, dataLoaded := true }
+/-- what `annealProg` reads and writes -/
+def annealFoot (lay : Layout) (inp : Inputs) : Footprint where
+  R := fun i => [tmplCool, tmplIter, tmplModel, sharedData, lay.cool i, lay.iter i, lay.arch i, lay.model i, lay.data i]
+  W := fun i => [lay.cool i, lay.iter i, lay.arch i, lay.model i, lay.data i, lay.out i, saverScratch] ++
+    (if inp.invObserver then [obsState] else [])
+  locked := [saverScratch]
 
-/-- a scenario of `runs` annealing runs; `private = true`: every clone owns its coolant (cells
-    1, 2, …; the template's is cell 0); `private = false`: `DeepClone` copied the pointer (every
-    clone uses cell 0) -/
-def annealCfg (inp : Inputs) (runs bound : Nat) (isolate priv : Bool) : Config Inputs RunPriv Coolant :=
-  { annealWorker with
-    runs := runs, bound := bound, isolate := isolate, shared := inp,
-    initP := freshPriv, tmpl := 0, addr := fun i => if priv then i + 1 else 0 }
+/-- a scenario of `runs` annealing runs over the layout `lay` -/
+def annealCfg (inp : Inputs) (runs bound : Nat) (isolate : Bool) (lay : Layout) : Config Nat :=
+  { runs := runs, bound := bound, isolate := isolate, prog := annealProg lay inp }
 
 /-- a deterministic scheduler used by the oracle: always the first enabled event in the order
-    ret, wgDone, release, step, clone (lowest worker first), spawn -/
-def firstEnabled (cfg : Config Sh P C) (s : State P C) : Option (Ev × State P C) :=
+    ret, wgDone, release, finish, step, clone (lowest worker first), spawn -/
+def firstEnabled (cfg : Config V) (s : State V) : Option (Ev × State V) :=
   let cands : List Ev :=
     [.ret] ++ (List.range cfg.runs).map .wgDone ++ (List.range cfg.runs).map .release ++
-    (List.range cfg.runs).map .step ++ (List.range cfg.runs).map .clone ++ [.spawn]
+    (List.range cfg.runs).map .finish ++ (List.range cfg.runs).map .step ++
+    (List.range cfg.runs).map .clone ++ [.spawn]
   cands.findSome? (fun e => (exec cfg s e).map (fun s' => (e, s')))
 
 /-- run the deterministic scheduler for at most `fuel` events -/
-def drive (cfg : Config Sh P C) : Nat → State P C → List Ev → State P C × List Ev
+def drive (cfg : Config V) : Nat → State V → List Ev → State V × List Ev
   | 0, s, acc => (s, acc.reverse)
   | fuel + 1, s, acc =>
     match firstEnabled cfg s with
